@@ -15,15 +15,18 @@ theorem takeIt_eq_takeWith (f : Nat) (h : Heap α) (it : It α) (c : Cnt) :
 theorem toNat_max_zero (k : Int) : (if 0 > k then (0 : Int) else k).toNat = k.toNat := by
   split <;> omega
 
+theorem toNat_max_zero' (k : Int) : (if k > 0 then k else (0 : Int)).toNat = k.toNat := by
+  split <;> omega
+
 /-- `Stream.take`: the guards and the rounding of the regenerated body decide the mode `takeMode` decides -/
 theorem takeModeP_gen (c : Cnt) : takeModeP ALV.Gen.C03.take c = .ok (takeMode c) := by
   cases c with
   | none => rfl
   | int n =>
-    simp [takeModeP, ALV.Gen.C03.take, exec, envOf, evalCond, evalRet, evalCE, takeMode, Except.map, toNat_max_zero]
+    simp [takeModeP, ALV.Gen.C03.take, exec, envOf, evalCond, evalRet, evalCE, takeMode, Except.map, toNat_max_zero, toNat_max_zero']
   | flt x =>
     by_cases hx : x > 0
-    · simp [takeModeP, ALV.Gen.C03.take, exec, envOf, evalCond, evalRet, evalCE, takeMode, Except.map, hx, toNat_max_zero]
+    · simp [takeModeP, ALV.Gen.C03.take, exec, envOf, evalCond, evalRet, evalCE, takeMode, Except.map, hx, toNat_max_zero, toNat_max_zero']
     · simp [takeModeP, ALV.Gen.C03.take, exec, envOf, evalCond, evalRet, evalCE, takeMode, Except.map, hx]
   | inf => rfl
   | ninf => rfl
@@ -57,8 +60,8 @@ theorem wrapP_limit (it : It α) (c : Cnt) (g : α → α) (p : α → Bool) (o 
       | .error e => .error (.eager e)
       | .ok n => .ok (.limiter n it) := by
   cases c with
-  | int n => simp [wrapP, ALV.Gen.C03.limit, exec, evalIE, evalCE, evalRet, roundCount, Except.map, toNat_max_zero]
-  | flt x => simp [wrapP, ALV.Gen.C03.limit, exec, evalIE, evalCE, evalRet, roundCount, Except.map, toNat_max_zero]
+  | int n => simp [wrapP, ALV.Gen.C03.limit, exec, evalIE, evalCE, evalRet, roundCount, Except.map, toNat_max_zero, toNat_max_zero']
+  | flt x => simp [wrapP, ALV.Gen.C03.limit, exec, evalIE, evalCE, evalRet, roundCount, Except.map, toNat_max_zero, toNat_max_zero']
   | none => rfl
   | inf => rfl
   | ninf => rfl
